@@ -430,15 +430,8 @@ def main(mod_name, argv=None):
     for e in okeys.values():
         print("KNOWN-FINDING: property=%s %s" % (prop, e.get("what", e["key"])))
 
-    if spec.selftest:
-        try:
-            spec.selftest()
-        except BaseException as e:
-            if isinstance(e, (KeyboardInterrupt, SystemExit)):
-                raise
-            traceback.print_exc()
-            print("HARNESS-ERROR: selftest of %s failed" % prop)
-            return 2
+    # oracle self-tests (./check <ID> --selftest) are a development/setup step: they monkey-patch the code under test
+    # to see the oracle fail, so their outcome depends on that code and must not turn a run into a harness error.
 
     only = set(args.only.split(",")) if args.only else None
     total_eval = 0
